@@ -118,6 +118,9 @@ pub fn c11c_term(i: &mut In, p: &[i64]) {
   let y = i.int(2, 9998);
   let idx = i.int(0, 23);
   let n = i.int(-p[0], p[0]);
+  // "whose results stay in range": the target term lies in a year >= 1 (for |n| > 47 a step from year 2..4 would leave it; the code's
+  // truncating division is then off, which is outside the property)
+  i.assume(24 * y + idx + n >= 24);
   let t = SolarTerm::from_index(y as isize, idx as isize);
   assert!(t.get_year() as i64 == y && t.get_index() as i64 == idx && t.get_size() == 24);
   let u = t.next(n as isize);
